@@ -10,6 +10,7 @@ import Deb822Verif.Driver.RelEdit
 import Deb822Verif.Driver.Derive
 import Deb822Verif.Driver.Typed
 import Deb822Verif.Driver.TypedDoc
+import Deb822Verif.Driver.Changes
 open Deb822Verif
 
 def dispatch (op : String) (args : List String) : String :=
@@ -24,6 +25,7 @@ def dispatch (op : String) (args : List String) : String :=
     <|> (Driver.Derive.handle op args)
     <|> (Driver.Typed.handle op args)
     <|> (Driver.TypedDoc.handle op args)
+    <|> (Driver.Changes.handle op args)
   match r with
   | some s => s
   | none => "bad-op"
